@@ -10,3 +10,9 @@ import AGV.Props.C20
 #print axioms AGV.Props.C20.c20_witness_spread
 #print axioms AGV.Props.C20.c20_exact_visited
 #print axioms AGV.Props.C20.c20_batch_exact
+#print axioms AGV.Props.C20.c20_inclusion
+#print axioms AGV.Props.C20.c20_sound
+#print axioms AGV.Props.C20.c20_exact
+#print axioms AGV.Props.C20.c20_sound_unconditional_false
+#print axioms AGV.Props.C20.c20_exact_unconditional_false
+#print axioms AGV.Props.C20.c20_hypotheses_needed
